@@ -490,6 +490,120 @@ Section FrameProofs.
     split; [reflexivity|]. split; [reflexivity|].
     right. split; [reflexivity|apply set_nth_neq; [lia|exact Hn]].
   Qed.
+
+  (* ---------------- truncation ---------------- *)
+  Lemma takeN_short {A} n (l : list A) : lenN l < n -> takeN n l = None.
+  Proof. intros Hl. unfold takeN. destruct (N.leb_spec n (lenN l)); [lia|reflexivity]. Qed.
+
+  (* Any strict prefix of a written frame (the connection dies, or bytes are
+     withheld) makes ReadMsg fail with a short read: nothing is delivered. *)
+  Theorem frame_truncation_detected snappy pos mac fsize body k :
+    fsize <= max_uint24 -> lenN body = frame_buf_size fsize ->
+    (k < length (frame pos mac fsize body))%nat ->
+    read_msg snappy (mk_rstate pos mac) (firstn k (frame pos mac fsize body)) = RErr RShort.
+  Proof.
+    clear snappy_enc tag_collision_free aes_len.
+    intros Hfs Hbody Hk. rewrite frame_length in Hk.
+    pose proof (f_hc_length pos fsize) as Lhc. pose proof (f_hm_length pos mac fsize) as Lhm.
+    pose proof (f_fm_length pos mac fsize body) as Lfm.
+    assert (Lct : length (f_ct pos body) = length body) by (unfold f_ct; apply xor_ks_length).
+    destruct (Nat.lt_ge_cases k 32) as [H1|H1].
+    { unfold Frame.read_msg. rewrite takeN_short; [reflexivity|].
+      unfold lenN. rewrite firstn_length. lia. }
+    unfold frame.
+    rewrite firstn_app, (firstn_all2 (f_hc pos fsize)) by lia. rewrite Lhc.
+    rewrite firstn_app, (firstn_all2 (f_hm pos mac fsize)) by lia. rewrite Lhm.
+    rewrite read_fields by assumption.
+    unfold f_hm.
+    destruct (update_mac mac (f_hc pos fsize)) as [mac1 should] eqn:Eu. cbn [snd].
+    rewrite bytes_eqb_refl. cbn [negb].
+    assert (Efs : N_of_be (firstn 3 (xor_ks pos (f_hc pos fsize))) = fsize).
+    { unfold f_hc. rewrite xor_ks_invol.
+      rewrite firstn_app_exact by apply be_fixed_length.
+      apply N_of_be_fixed. unfold max_uint24 in Hfs. change (256 ^ N.of_nat 3) with 16777216. lia. }
+    rewrite Efs. cbv zeta.
+    destruct (Nat.lt_ge_cases (k - 16 - 16) (length body)) as [H2|H2].
+    { rewrite takeN_short; [reflexivity|].
+      unfold lenN. rewrite firstn_length, app_length, Lct. rewrite <- Hbody. unfold lenN. lia. }
+    rewrite firstn_app, (firstn_all2 (f_ct pos body)) by lia. rewrite Lct.
+    rewrite (takeN_app' (frame_buf_size fsize) (f_ct pos body)) by (unfold lenN; rewrite Lct; exact Hbody).
+    rewrite takeN_short; [reflexivity|].
+    unfold lenN. rewrite firstn_length. lia.
+  Qed.
+
+  (* ---------------- sessions ---------------- *)
+  Section Session.
+  Hypothesis snappy_roundtrip : forall p, snappy_dec (snappy_enc p) = Some p.
+  Hypothesis snappy_len : forall p, lenN p <= max_uint24 -> snappy_declen (snappy_enc p) = Some (lenN p).
+
+  (* reading past a written prefix: the first |ms| reads return ms and leave the
+     reader in the writer's state; what happens next is decided by the rest *)
+  Lemma read_n_prefix snappy : forall ms pos mac out st' k rest,
+    Forall (msg_ok snappy) ms ->
+    write_all snappy (mk_wstate pos mac) ms = Some (out, st') ->
+    read_n snappy (length ms + k) (mk_rstate pos mac) (out ++ rest) =
+      let '(ms', e, st2, r) := read_n snappy k (mk_rstate (w_pos st') (w_mac st')) rest in
+      (ms ++ ms', e, st2, r).
+  Proof.
+    clear tag_collision_free aes_len.
+    induction ms as [|[c p] ms IH]; intros pos mac out st' k rest Hall Hw.
+    - cbn in Hw. injection Hw as <- <-. cbn [length Nat.add app w_pos w_mac].
+      destruct (read_n snappy k (mk_rstate pos mac) rest) as [[[ms' e] st2] r]. reflexivity.
+    - inversion Hall as [|? ? Hm Hrest]; subst.
+      cbn [Frame.write_all] in Hw.
+      destruct (write_msg snappy (mk_wstate pos mac) c p) as [e|o st1] eqn:E1; [discriminate|].
+      destruct (write_all snappy st1 ms) as [[o' st2]|] eqn:E2; [|discriminate].
+      injection Hw as <- <-.
+      cbn [length Nat.add Frame.read_n]. rewrite <- app_assoc.
+      rewrite (frame_roundtrip1 snappy_roundtrip snappy_len snappy pos mac c p o st1 (o' ++ rest) Hm E1).
+      destruct st1 as [pos1 mac1]. cbn [w_pos w_mac].
+      rewrite (IH pos1 mac1 o' st2 k rest Hrest E2).
+      destruct (read_n snappy k (mk_rstate (w_pos st2) (w_mac st2)) rest) as [[[ms' e] st3] r]. reflexivity.
+  Qed.
+
+  (* A session in which one byte of frame i is altered (anything may follow it):
+     the frames before i are delivered unchanged, frame i fails a MAC check, and
+     nothing after it is delivered — however many reads are attempted. *)
+  Theorem session_tamper_detected snappy ms1 c p pos mac out1 st1 F st2 i b rest n :
+    Forall (msg_ok snappy) ms1 -> msg_ok snappy (c, p) ->
+    write_all snappy (mk_wstate pos mac) ms1 = Some (out1, st1) ->
+    write_msg snappy st1 c p = WOk F st2 ->
+    (i < length F)%nat -> nth i F x00 <> b -> (length ms1 < n)%nat ->
+    exists e, read_n snappy n (mk_rstate pos mac) (out1 ++ set_nth i b F ++ rest) =
+                (ms1, Some e, mk_rstate (w_pos st1) (w_mac st1), set_nth i b F ++ rest) /\
+              (e = RHeaderMac \/ e = RFrameMac).
+  Proof.
+    intros Hall Hm Hw1 Hw Hi Hn Hlen.
+    replace n with (length ms1 + S (n - length ms1 - 1))%nat by lia.
+    rewrite (read_n_prefix snappy ms1 pos mac out1 st1 _ _ Hall Hw1).
+    destruct st1 as [pos1 mac1]. cbn [w_pos w_mac].
+    apply write_msg_frame in Hw; [|exact Hm]. destruct Hw as (Hfs & -> & _ & _).
+    destruct (frame_byte_flip_detected snappy pos1 mac1 _ _ rest i b Hfs (body_of_len snappy c p) Hi Hn)
+      as (e & He & Hcls).
+    exists e. split; [|exact Hcls].
+    cbn [Frame.read_n]. rewrite He. now rewrite app_nil_r.
+  Qed.
+
+  (* the same for a session cut off inside frame i *)
+  Theorem session_truncation_detected snappy ms1 c p pos mac out1 st1 F st2 k n :
+    Forall (msg_ok snappy) ms1 -> msg_ok snappy (c, p) ->
+    write_all snappy (mk_wstate pos mac) ms1 = Some (out1, st1) ->
+    write_msg snappy st1 c p = WOk F st2 ->
+    (k < length F)%nat -> (length ms1 < n)%nat ->
+    read_n snappy n (mk_rstate pos mac) (out1 ++ firstn k F) =
+      (ms1, Some RShort, mk_rstate (w_pos st1) (w_mac st1), firstn k F).
+  Proof.
+    clear tag_collision_free aes_len.
+    intros Hall Hm Hw1 Hw Hk Hlen.
+    replace n with (length ms1 + S (n - length ms1 - 1))%nat by lia.
+    rewrite (read_n_prefix snappy ms1 pos mac out1 st1 _ _ Hall Hw1).
+    destruct st1 as [pos1 mac1]. cbn [w_pos w_mac].
+    apply write_msg_frame in Hw; [|exact Hm]. destruct Hw as (Hfs & -> & _ & _).
+    cbn [Frame.read_n].
+    rewrite (frame_truncation_detected snappy pos1 mac1 _ _ k Hfs (body_of_len snappy c p) Hk).
+    now rewrite app_nil_r.
+  Qed.
+  End Session.
   End WithLen.
 End FrameProofs.
 
@@ -590,7 +704,7 @@ Section DiscoverProofs.
     destruct (recover (H (skipn 97 buf)) (firstn 65 (skipn 32 buf))) as [id0|] eqn:Er; [|discriminate].
     destruct (skipn 97 buf) as [|t0 sd]; [discriminate|].
     match goal with |- context [if ?c then _ else DUnknownType _ _] => destruct c end; [|discriminate].
-    match goal with |- context [if ?c then DPanic else _] => destruct c end; [discriminate|].
+    match goal with |- context [if ?c then DTooSmallBody _ else _] => destruct c end; [discriminate|].
     match goal with |- context [match ?d with Some _ => _ | None => _ end] => destruct d end; [|discriminate].
     intros E. injection E as _ <- <-. unfold head_size in Hlen. repeat split; auto; lia.
   Qed.
@@ -610,7 +724,7 @@ Section DiscoverProofs.
     destruct (recover (H (skipn 97 buf)) (firstn 65 (skipn 32 buf))) as [id0|] eqn:Er; [|intros [|]; discriminate].
     destruct (skipn 97 buf) as [|t0 sd]; [intros [|]; discriminate|].
     match goal with |- context [if ?c then _ else DUnknownType _ _] => destruct c end.
-    - match goal with |- context [if ?c then DPanic else _] => destruct c end; [intros [|]; discriminate|].
+    - match goal with |- context [if ?c then DTooSmallBody _ else _] => destruct c end; [intros [|]; discriminate|].
       match goal with |- context [match ?d with Some _ => _ | None => _ end] => destruct d end;
         intros [E|E]; try discriminate. injection E as <- _. auto.
     - intros [E|E]; try discriminate. injection E as <- _. auto.
@@ -634,15 +748,14 @@ Section DiscoverProofs.
     - rewrite !lenN_app. unfold lenN. rewrite Hh, Hs. lia.
   Qed.
 
-  (* the defect: a correctly hashed and signed datagram whose signed data has 1..4
-     bytes and a known type byte makes decodePacket slice out of range (aqua mode).
-     `recover ... = Some id` is all "correctly signed" means to the decoder: any
-     key holder can produce such a datagram. *)
-  Theorem decode_packet_short_sigdata_panics sig sigdata t0 id :
+  (* the former defect (sigdata[1+4:] sliced unchecked, fixed by commit f90a10c):
+     a correctly hashed and signed datagram whose signed data has 1..4 bytes and a
+     known type byte is now rejected as too small, with the signer identified *)
+  Theorem decode_packet_short_sigdata_rejected sig sigdata t0 id :
     length sig = 65%nat -> hd_error sigdata = Some t0 -> (length sigdata < 5)%nat ->
     134 <= b2n t0 <= 137 ->
     recover (H sigdata) sig = Some id ->
-    decode_packet false (H (sig ++ sigdata) ++ sig ++ sigdata) = DPanic.
+    decode_packet false (H (sig ++ sigdata) ++ sig ++ sigdata) = DTooSmallBody id.
   Proof.
     clear sign.
     intros Hsig Hhd Hlen Ht Hrec.
@@ -658,40 +771,21 @@ Section DiscoverProofs.
     unfold lenN in Hc. cbn [length] in Hlen. lia.
   Qed.
 
-  (* what is left of "never panics": datagrams with at least 5 bytes of signed data,
-     and every datagram in netcompat mode *)
-  Theorem decode_packet_no_panic_partial netcompat buf :
-    netcompat = true \/ 102 <= lenN buf -> decode_packet netcompat buf <> DPanic.
+  (* decodePacket never panics: for every byte string, both network modes, any H and recover *)
+  Theorem decode_packet_never_panics netcompat buf : decode_packet netcompat buf <> DPanic.
   Proof.
     clear sign H_len.
-    intros Hcase. unfold Discover.decode_packet.
+    unfold Discover.decode_packet.
     destruct (N.ltb_spec (lenN buf) (head_size + 1)) as [|Hlen]; [discriminate|].
-    assert (Hsd : lenN (skipn 97 buf) = lenN buf - 97).
-    { unfold lenN. rewrite skipn_length. lia. }
     destruct (N.eqb_spec (lenN (skipn 97 buf)) 0) as [|Hnz]; [discriminate|].
     destruct (negb _); [discriminate|].
     destruct (recover _ _); [|discriminate].
     destruct (skipn 97 buf) as [|t0 sd] eqn:Esd; [rewrite lenN_nil in Hnz; lia|].
     match goal with |- context [if ?c then _ else DUnknownType _ _] => destruct c end; [|discriminate].
-    destruct (N.ltb_spec (lenN (t0 :: sd)) (1 + (if netcompat then 0 else 4))) as [Hc|_].
-    - exfalso. rewrite Hsd in Hc. unfold head_size in Hlen.
-      destruct netcompat; destruct Hcase as [Hn|Hl]; try discriminate; lia.
-    - destruct (dec_msg _ _); discriminate.
+    match goal with |- context [if ?c then DTooSmallBody _ else _] => destruct c end; [discriminate|].
+    destruct (dec_msg _ _); discriminate.
   Qed.
 End DiscoverProofs.
-
-(* the full-strength clause is false of the faithful model: concrete witness with
-   Keccak-256 and an attacker whose signature recovers to some identity *)
-Theorem decode_packet_never_panics_refuted :
-  exists (recover : bytes -> bytes -> option bytes) (buf : bytes),
-    (exists id, recover (keccak256 (skipn 97 buf)) (firstn 65 (skipn 32 buf)) = Some id) /\
-    keccak256 (skipn 32 buf) = firstn 32 buf /\
-    decode_packet keccak256 recover false buf = DPanic.
-Proof.
-  exists (fun _ _ => Some (repeat x07 64)).
-  exists (keccak256 (repeat x01 65 ++ [x86]) ++ repeat x01 65 ++ [x86]).
-  split; [eexists; reflexivity|]. split; vm_compute; reflexivity.
-Qed.
 
 (* ------------------------------------------------------------------ *)
 (* sub-protocol limits                                                *)
@@ -738,3 +832,81 @@ Qed.
 Theorem headers_served_bounded amount avail :
   headers_served amount avail <= max_header_fetch /\ headers_served amount avail <= avail.
 Proof. unfold headers_served. destruct (two63N <=? amount); unfold max_header_fetch; lia. Qed.
+
+(* ------------------------------------------------------------------ *)
+(* translator-generated constants (Generated/GenParamsNet.v) pinned to the
+   documented values and to the relations the models and theorems rely on:
+   a changed limit in /repo regenerates the file and breaks this proof       *)
+(* ------------------------------------------------------------------ *)
+From AQ Require Import Generated.GenParamsNet.
+Theorem net_params_pinned :
+  (* frames *)
+  g_max_uint24 = 2 ^ 24 - 1 /\ map n2b g_zero_header = [xc2; x80; x80] /\
+  (* the sub-protocol gate and the handshake gate lie below the frame limit, responses too *)
+  g_protocol_max_msg_size = 10 * 1024 * 1024 /\ g_protocol_max_msg_size <= g_max_uint24 /\
+  g_base_protocol_max_msg_size = 2048 /\ g_base_protocol_length = 16 /\
+  g_soft_response_limit = 2 * 1024 * 1024 /\ g_soft_response_limit + g_protocol_max_msg_size <= g_max_uint24 /\
+  g_est_header_rlp_size = 500 /\
+  g_max_hash_fetch = 512 /\ g_max_block_fetch = 128 /\ g_max_header_fetch = 192 /\
+  g_max_receipt_fetch = 256 /\ g_max_state_fetch = 384 /\
+  g_max_header_fetch * g_est_header_rlp_size <= g_soft_response_limit /\
+  g_aqua_codes = [0; 1; 2; 3; 4; 5; 6; 7; 13; 14; 15; 16] /\
+  Forall (fun l => Forall (fun c => c < l) g_aqua_codes) g_protocol_lengths /\
+  (* discovery envelope: the literals 32 / 65 / 97 of Net/Discover.v *)
+  g_mac_size = 32 /\ g_sig_size = 65 /\ g_head_size = g_mac_size + g_sig_size /\ g_head_size = 97 /\
+  g_aqua_ping = 134 /\ g_aqua_pong = 135 /\ g_aqua_findnode = 136 /\ g_aqua_neighbors = 137 /\
+  g_eth_ping + 133 = g_aqua_ping /\ g_eth_neighbors + 133 = g_aqua_neighbors /\
+  g_expiration_ms = 4000 /\ g_resp_timeout_ms = 4000 /\ g_bond_expiration_ms = 3600 * 1000 /\
+  g_max_neighbors = 12 /\
+  (* RLPx handshake packet sizes *)
+  g_auth_msg_len = 65 + 32 + 64 + 32 + 1 /\ g_auth_resp_len = 64 + 32 + 1 /\ g_ecies_overhead = 65 + 16 + 32 /\
+  g_enc_auth_msg_len = g_auth_msg_len + g_ecies_overhead /\ g_enc_auth_resp_len = g_auth_resp_len + g_ecies_overhead /\
+  g_enc_auth_msg_len = 307 /\ g_enc_auth_resp_len = 210 /\
+  g_handshake_timeout_ms = 5000 /\ g_frame_read_timeout_ms = 30000.
+Proof. vm_compute. repeat split; try reflexivity; try discriminate; repeat constructor. Qed.
+
+(* ------------------------------------------------------------------ *)
+(* handshake reader: what a remote can make the node buffer           *)
+(* ------------------------------------------------------------------ *)
+From AQ Require Import Net.Handshake.
+(* Whatever the first bytes say and whatever decryption does, readHandshakeMsg
+   never holds more than size+2 <= 65537 bytes, and the uint16 subtraction it
+   performs cannot wrap (for the two packet sizes in use, indeed any 2..65535). *)
+Theorem handshake_buffer_bounded :
+  forall (dec_plain : bytes -> option bytes) (dec_eip8 : bytes -> bytes -> option bytes) (body_ok : bytes -> bool)
+         (plain_size : N) (s : bytes) (c : hclass) (n : N),
+  2 <= plain_size < two16 ->
+  read_handshake_msg dec_plain dec_eip8 body_ok plain_size s = (c, n) ->
+  n <= 65537 /\ plain_size <= n /\
+  (c = HOk \/ c = HBadBody \/ c = HDecryptErr -> n <= lenN s /\ n = N_of_be (firstn 2 s) + 2).
+Proof.
+  intros dec_plain dec_eip8 body_ok plain_size s c n Hps. unfold read_handshake_msg, two16 in *.
+  destruct (takeN plain_size s) as [[buf s1]|] eqn:Et.
+  2:{ intros E; injection E as <- <-. repeat split; try lia. intros [|[|]]; discriminate. }
+  apply takeN_spec in Et as [-> Hlen].
+  destruct (dec_plain buf).
+  { intros E; injection E as <- <-. repeat split; try lia. intros [|[|]]; discriminate. }
+  rewrite (N.mod_small plain_size 65536) by lia.
+  assert (Hsz : N_of_be (firstn 2 buf) < 65536).
+  { pose proof (N_of_be_lt (firstn 2 buf)) as Hlt.
+    assert (256 ^ lenN (firstn 2 buf) <= 256 ^ 2) by (apply N.pow_le_mono_r; unfold lenN; rewrite firstn_length; lia).
+    change (256 ^ 2) with 65536 in *. lia. }
+  destruct (N.ltb_spec (N_of_be (firstn 2 buf)) plain_size) as [|Hge].
+  { intros E; injection E as <- <-. repeat split; try lia. intros [|[|]]; discriminate. }
+  assert (Hextra : (N_of_be (firstn 2 buf) + 65536 - plain_size + 2) mod 65536 = N_of_be (firstn 2 buf) - plain_size + 2).
+  { replace (N_of_be (firstn 2 buf) + 65536 - plain_size + 2) with (N_of_be (firstn 2 buf) - plain_size + 2 + 1 * 65536) by lia.
+    rewrite N.mod_add by lia. apply N.mod_small. lia. }
+  rewrite Hextra.
+  assert (Hpre : firstn 2 (buf ++ s1) = firstn 2 buf).
+  { rewrite firstn_app. replace (2 - length buf)%nat with 0%nat by (unfold lenN in Hlen; lia).
+    cbn [firstn]. apply app_nil_r. }
+  destruct (takeN (N_of_be (firstn 2 buf) - plain_size + 2) s1) as [[more s2]|] eqn:Et2.
+  2:{ intros E; injection E as <- <-. repeat split; try lia. intros [|[|]]; discriminate. }
+  apply takeN_spec in Et2 as [-> Hlen2].
+  assert (Hall : forall c0, (c0, plain_size + (N_of_be (firstn 2 buf) - plain_size + 2)) = (c, n) ->
+            n <= 65537 /\ plain_size <= n /\
+            (c = HOk \/ c = HBadBody \/ c = HDecryptErr ->
+             n <= lenN (buf ++ more ++ s2) /\ n = N_of_be (firstn 2 (buf ++ more ++ s2)) + 2)).
+  { intros c0 E; injection E as _ <-. rewrite Hpre, !lenN_app. repeat split; lia. }
+  destruct (dec_eip8 _ _); [destruct (body_ok _)|]; apply Hall.
+Qed.
